@@ -75,3 +75,10 @@ Proof. intros Ha Hb. apply N.eqb_eq. exact (sweep2 lor_nib_b 16 16 lor_nib_sweep
 
 Lemma bit_cases x : x < 2 -> x = 0 \/ x = 1.
 Proof. lia. Qed.
+
+Lemma skipn_skipn {A} (x y : nat) (l : list A) : skipn x (skipn y l) = skipn (x + y) l.
+Proof.
+  revert l; induction y as [|y IH]; intros l; [now rewrite Nat.add_0_r|].
+  destruct l as [|h t]; [now rewrite !skipn_nil|].
+  replace (x + S y)%nat with (S (x + y)) by lia. cbn [skipn]. apply IH.
+Qed.
